@@ -3,6 +3,10 @@
 import json
 props=[json.loads(l) for l in open('/verif/properties.jsonl')]
 claimed={
+ "C08": dict(level="model_checking",
+   text="ExpandSpec runs from SSA on worlds with every kind of unresolvable target; which documents the loader refuses and ContinueOnError are solver variables branched on lazily, so a path's verdict covers every fault subset it never consulted. Oracle: error iff an unresolvable $ref lies on the unfolding (strict); bisimilarity with verbatim unresolvable refs (continue).",
+   note="Trusted: as C02. Bounds: 3 documents, 3 slots, 2 fault bits.",
+   design="4 C08", technique="bounded symbolic execution of go/ssa with symbolic fault bits + SMT (z3), counterexample replay"),
  "C04": dict(level="model_checking",
    text="Termination and crash-freedom decided by bounded execution with unwinding assertions as the property: every expansion entry point runs from SSA on hostile worlds (ids of every kind, cycles, dangling documents and pointers, string/number/array/boolean/null targets, self-referring parameters/responses/path items) with SkipSchemas/ContinueOnError symbolic; an interpreted panic or an overrun of the stated work bound (2.5e6 instructions, depth 300; terminating runs need well under 1e6) is a candidate that is replayed natively under a watchdog. The relative-id non-termination is a known finding with exact regions.",
    note="Trusted: SSA executor, z3, models as C02. Bounds: 3 documents, 2-3 slots; not the 'random large graphs' of the property text.",
